@@ -420,7 +420,10 @@ class Inv:
         for sw in sws:
             tm = b.blocks[sw]['term']
             f_edge = [s for v, s in tm['targets'] if v == 0]
-            if f_edge and q.arm_always_err(b, f_edge[0]):
+            # .. and what stands for "not in the table" (frame or layer beyond it: unwrap_or(..) / None => ..) is `false`, i.e. refused
+            cond = q.switch_cond(b, sw)
+            absent_false = all(a[1] == 0 for a in alts(cond) if a[0] == 'const') and cond[0] != 'un'
+            if f_edge and q.arm_always_err(b, f_edge[0]) and absent_false:
                 ok = True
         rv = fx.body('asefile::cel::RawCel::validate')
         called = False
@@ -429,7 +432,7 @@ class Inv:
                 fates = q.result_fates(rv, c.dest['l'])
                 called = bool(fates) and all(f[0] == 'try' for f in fates)
         # the table marks exactly the raw cels
-        tbl = any(any(c.callee.endswith('is_raw') or q.callee_name(c).endswith('CelContent::is_raw') for c in q.calls(b2)) for b2 in fx.closures_of(cv))
+        tbl = any(any(c.callee.endswith('is_raw') or q.callee_name(c).endswith('CelContent::is_raw') for c in q.calls(b2)) for b2 in fx.closure_cone(cv))
         return ok and called and tbl, ('links are validated with a bounds-checked lookup of (frame, layer) in a table that is true exactly for raw cels; false/missing -> Err'
                                        if ok and called and tbl else 'link target validation not established (%s %s %s)' % (ok, called, tbl))
 
@@ -513,6 +516,11 @@ class Inv:
         return ok and ok10, ('LayersData is built only after `layers.len() > 65536 -> Err`, so every layer id fits u16' if ok and ok10 else
                              'layer count cap not established')
 
+    def _variant_index(self, adt, name):
+        a = self.fx.adts.get(adt)
+        names = [v['name'] for v in a['variants']] if a else []
+        return names.index(name) if name in names else None
+
     # I11: a tilemap cel lives in a tilemap layer
     def I11(self):
         fx = self.fx
@@ -523,7 +531,13 @@ class Inv:
             for cond, vals, a in q.guards(rv, k):
                 if cond[0] == 'discr' and cond[1][0] == 'field' and cond[1][2] == 'layer_type' and vals != ['otherwise']:
                     tm = rv.blocks[a]['term']
-                    if q.arm_always_err(rv, tm['otherwise']):
+                    # the variants under which the cel is kept: exactly Tilemap; every other edge of the match (`_ =>`, or the other
+                    # variants listed by name) ends in an error
+                    taken = {s_ for v_, s_ in tm['targets'] if v_ in vals}
+                    others = [s_ for s_ in rv.cfg.succ[a] if s_ not in taken]
+                    dead = [s_ for s_ in others if rv.blocks[s_]['term'] and rv.blocks[s_]['term']['k'] == 'unreachable']
+                    only_tilemap = len(vals) == 1 and self._variant_index('asefile::layer::LayerType', 'Tilemap') in (None, vals[0])
+                    if others and only_tilemap and all(s_ in dead or q.arm_always_err(rv, s_) for s_ in others) and len(dead) < len(others):
                         ok = True
         return ok, ('CelContent::Tilemap is kept only inside the LayerType::Tilemap arm of the cel\'s own layer; other layer types -> Err'
                     if ok else 'tilemap-cel-in-tilemap-layer check not found')
